@@ -1,6 +1,7 @@
 package wal
 
 import (
+	"os"
 	"errors"
 	"fmt"
 	"time"
@@ -109,4 +110,32 @@ func zzRemoveFileIfExists(path string) error {
 func zzRemoveAll(string) error {
 	zzDisk = map[int64]*zzSegData{}
 	return nil
+}
+
+// zzReadDir replaces os.ReadDir for the WAL directory (engine side): one "<base>.txnx" entry per model segment,
+// sorted by FILE NAME as os.ReadDir documents — i.e. lexicographically, "10.txnx" before "2.txnx".
+type zzDirEntry struct{ name string }
+
+func (e zzDirEntry) Name() string               { return e.name }
+func (e zzDirEntry) IsDir() bool                { return false }
+func (e zzDirEntry) Type() os.FileMode          { return 0 }
+func (e zzDirEntry) Info() (os.FileInfo, error) { return nil, errors.New("zz: no file info") }
+
+func zzReadDir(string) ([]os.DirEntry, error) {
+	var names []string
+	for b := range zzDisk {
+		nm := fmt.Sprintf("%d.txnx", b)
+		i := len(names)
+		names = append(names, nm)
+		for i > 0 && names[i-1] > nm {
+			names[i] = names[i-1]
+			i--
+		}
+		names[i] = nm
+	}
+	var out []os.DirEntry
+	for _, nm := range names {
+		out = append(out, zzDirEntry{nm})
+	}
+	return out, nil
 }
